@@ -2,10 +2,11 @@
 CONFIG = {
     "manifest": {
         "level_text": "Coq theorems, closed under the global context. Tables: for every history of set / overwrite / get / has / del / clear / copy / iterate, every hash function and every tuning triple satisfying an explicit side condition (met by the generated constants), the open-addressing model (linear probing with wrap-around, resize test before probing, back-shift re-insertion on delete, mirroring map.hpp statement by statement) produces the outputs of an association-list map, never crashing or hanging; instances for Map (FNV-1a over signed chars), Set, StyleMap and TagMap (identity default, set k k = del k). Sorting: insertion sort, the median-of-three Hoare partition, the bottom-up heap sort and the introsort recursion return an ordered permutation for every strict weak order (permutation and absence of out-of-bounds access for every irreflexive comparator; two refutations show irreflexivity cannot be dropped). Property lists: every function equals its list specification and any operation sequence refines the ordered multimap. All three models run, extracted, against the real code on adversarial histories (colliding / wrapping keys through every growth step, raw slot layout compared), arrays of every length through the three sort regimes, and property-list histories in forked children.",
-        "level_note": "Public Map::resize to a smaller capacity is outside the table theorem (growth covered by tresize_grow); iteration order is compared up to permutation in the theorem but exactly in the run. uint64 overflow of count*10 and allocation failure are not modelled. The remove_property crash found by this check was repaired by a fix: commit; the model mirrors the fixed function and the generated flag remove_property_guard ties it to the source.",
+        "level_note": "The public resize(c) is inside the table theorems for every capacity but 1 (Properties_C20R: tresize_any, table_refines_map_resize over a weaker invariant; capacity 1 leaves a full one-slot table - refutation witnesses replayed on the four real tables, known finding resize:capacity-1-full-table); iteration order is compared up to permutation in the theorem but exactly in the run. uint64 overflow of count*10 and allocation failure are not modelled. The remove_property crash found by this check was repaired by a fix: commit; the model mirrors the fixed function and the generated flag remove_property_guard ties it to the source.",
         "technique": "Coq refinement proofs (invariant by induction over operation lists) + extracted-model differential runs",
     },
     "prop_file": "Properties_C20",
+    "extra_prop_files": ["Properties_C20R"],
     "rule": ("tables: histories of up to 200 ops (some long) over Map<uint64_t>, Set, TagMap, StyleMap with keys chosen to collide, wrap past "
              "the table end and straddle every growth step; results of every op, sorted element set after iteration and the raw slot layout; "
              "sort: arrays of every length 0..300 in sorted / reversed / constant / organ-pipe / few-distinct / random shapes under <, > and a "
